@@ -22,6 +22,7 @@
   mutually recursive encoders) and 5 (kernel-evaluated comparison of regenerated data with pinned data).
 -/
 import KmipModel.Lemmas.GateLemmas
+import KmipModel.Lemmas.GateDecLemmas
 import KmipModel.Gen.Schema
 import KmipModel.Pinned.Introduced
 namespace Kmip.C05
@@ -234,6 +235,33 @@ theorem decode_lenient (S : Schema) (fuel : Nat) (f : Field) (fs : List Field) (
       let (vs, st) ← decFields S fuel fs c1 ver2
       pure (v :: vs, st)) :=
   decFields_present S fuel f fs c ver ht hd
+
+/-- 4'. **end to end** (any schema, any bytes, any target type): whatever the ANNOTATION-FREE decoder — the
+    decoder of the schema `S.ungated`, in which every element exists at every version — accepts, the library's
+    decoder accepts too and returns the same value, whatever version the header announces and at any depth.
+    So a later-version element present on the wire is never rejected nor dropped because of the version: the
+    only effect an annotation has on decoding is to make an ABSENT out-of-range element not an error. -/
+theorem decode_lenient_everywhere (S : Schema) (d tag : Nat) (bs : Bytes) (v : Val)
+    (h : unmarshal S.ungated d tag bs = .ok v) : unmarshal S d tag bs = .ok v :=
+  unmarshal_lenient S d tag bs v h
+
+/-- 4'a. `S.ungated` is what it says: same structs, same fields, no annotation. -/
+theorem ungated_schema_has_no_annotation (S : Schema) (id : Nat) :
+    (S.ungated.structDef id).fields = (S.structDef id).fields.map Field.ungate ∧
+    ∀ f ∈ (S.ungated.structDef id).fields, f.vrange = none := by
+  rw [Schema.ungated_structDef]
+  refine ⟨rfl, ?_⟩
+  intro f hf
+  rw [StructDef.ungate_fields, List.mem_map] at hf
+  obtain ⟨g, _, rfl⟩ := hf
+  rfl
+
+/-- 4'b. for the library's messages. -/
+theorem gen_decode_lenient (response : Bool) (bs : Bytes) (v : Val)
+    (h : unmarshal Gen.schema.ungated (if response then Gen.responseMessageDyn else Gen.requestMessageDyn) 0 bs
+      = .ok v) :
+    unmarshal Gen.schema (if response then Gen.responseMessageDyn else Gen.requestMessageDyn) 0 bs = .ok v :=
+  unmarshal_lenient _ _ _ _ _ h
 
 /-! ### 5 — the `version=` annotations are the pinned table -/
 
@@ -485,5 +513,25 @@ def restrictedMessageTags (major minor : Int) : List Nat :=
   | _ => []
 example : restrictedMessageTags 1 0 = messageTags 1 0 ∧ restrictedMessageTags 1 1 = messageTags 1 1 ∧
     restrictedMessageTags 1 4 = messageTags 1 4 := by decide +kernel
+
+/-! 4' on bytes: the nested sample message encoded at 1.4 (KeyWrapType and EncodingOption on the wire), with the
+    header's minor version patched to 0 (byte 51): the annotation-free decoder accepts it (hypothesis of 4'
+    satisfiable) and the library's decoder, under a 1.0 header, returns KeyWrapType = 1 and EncodingOption = 1. -/
+
+def laterElementsUnder10 : Bytes :=
+  match marshal Gen.schema Gen.requestMessageDyn 0 (.ptr (some (sampleMessage 1 4))) with
+  | .ok bs => bs.set 51 0
+  | _ => []
+
+def decodedLater (S : Schema) : Option (Int × Int × Int) :=
+  match unmarshal S Gen.requestMessageDyn 0 laterElementsUnder10 with
+  | .ok (.ptr (some (.struct [.struct (.struct [_, .int minor] :: _),
+      .list [.struct [_, _, .iface (some (_, .ptr (some (.struct [_, _, .int kwt, _,
+        .ptr (some (.struct [_, _, _, _, .int eo]))])))), _]]]))) => some (minor, kwt, eo)
+  | _ => none
+
+set_option maxRecDepth 100000 in
+example : decodedLater Gen.schema.ungated = some (0, 1, 1) ∧ decodedLater Gen.schema = some (0, 1, 1) := by
+  decide +kernel
 
 end Kmip.C05
